@@ -85,6 +85,11 @@ def c04(res: Result):
     recs = run_mc(res, "plain", ops, 2 if q else 3, [0, 2, 3] if q else [0, 1, 2, 3], [1000], invs_mc, 1)
     # (min with skip is part of the alphabet of MC_SD; plain histories are those without it)
     recs = [r for r in recs if not any(h[0] == "min" and h[3] for h in r["hist"])]
+    if not q:
+        # the same machine on the 247 three-variable networks of the catalogue (depth 1: every single call from a fresh diagram,
+        # every micro-state; histories of depth 2 are covered by the replayed runs)
+        recs += [r for r in run_mc(res, "plain3", ops, 1, [0, 2, 3], [1000], invs_mc, 1, netmode="file")
+                 if not any(h[0] == "min" and h[3] for h in r["hist"])]
     tasks = tasks_from_emitted(recs, rng, 1500 if q else 20000, "m", tail=[FULL_BFS])
     tasks += random_tasks(rng, 500 if q else 6000, [3, 3, 4, 4, 5] if q else [3, 4, 4, 5, 5, 6],
                           gen.PLAIN_KINDS + ["blockplain"], (1, 4), "r", tail=[FULL_BFS])
@@ -104,6 +109,8 @@ def c20(res: Result):
     ops = ["exp", "bfs", "dfs", "min", "tgt", "skipmin", "skiprem"]
     invs_mc = ["Inv_WF", "Inv_DepthExact"]
     recs = run_mc(res, "meta", ops, 2, [0, 2, 3], [1000], invs_mc, 1)
+    if not q:
+        recs += run_mc(res, "meta3", ["exp", "bfs", "dfs", "skipmin"], 2, [2], [1000], invs_mc, 2, netmode="file")
     tasks = tasks_from_emitted(recs, rng, 1200 if q else 15000, "m")
     tasks += random_tasks(rng, 600 if q else 8000, [3, 3, 4, 4, 5] if q else [3, 4, 4, 5, 5, 6],
                           gen.PLAIN_KINDS + ["skipmin", "skiprem", "minskip", "pickle"], (1, 5), "r")
@@ -203,6 +210,10 @@ def c14(res: Result):
     ops = ["exp", "bfs", "skipmin", "skiprem", "min", "cand", "seeds", "sets", "reclaim"]
     recs = run_mc(res, "cache", ops, 2, [2], [1000], ["Inv_WF", "Inv_CacheFresh", "Inv_PartialFaithful"], 2)
     recs = [r for r in recs if any(h[0] in ("cand", "seeds", "sets") for h in r["hist"][:-1])]
+    if not q:
+        r3 = run_mc(res, "cache3", ["exp", "skipmin", "skiprem", "seeds", "sets", "reclaim"], 2, [], [1000],
+                    ["Inv_WF", "Inv_CacheFresh", "Inv_PartialFaithful"], 2, netmode="file")
+        recs += [r for r in r3 if any(h[0] in ("cand", "seeds", "sets") for h in r["hist"][:-1])]
     tasks = tasks_from_emitted(recs, rng, 1500 if q else 20000, "m")
     kinds = ["exp", "bfs", "dfs", "min", "minskip", "skipmin", "skiprem", "cand", "seeds", "seeds", "sets", "reclaim", "pickle", "block", "scc", "aseeds"]
     tasks += random_tasks(rng, 600 if q else 8000, [3, 3, 4, 4, 5], kinds, (2, 6), "r")
@@ -947,8 +958,11 @@ def c18(res: Result):
                        "composed truth tables and checks the library's result (the product structure is a TLC-checked theorem of the definitions); "
                        "(2) networks with 1-2 source variables: for every input valuation the fully expanded diagram of the network with the sources "
                        "replaced by constants must equal (node spaces, flags, edges, attractor sets) the part of the free-input diagram inside that "
-                       "valuation (Twin relation 'below'), and both runs are validated by SDTrace. The third clause (published models vs an independent "
-                       "symbolic computation) is covered only for models whose percolated core is small enough for explicit-state TLC (see DESIGN.md). "
+                       "valuation (Twin relation 'below', under full BFS and under build / block expansion), and both runs are validated by SDTrace; "
+                       "(3) published models whose percolated core has <= 7 (quick) / 10 (thorough) variables: build() runs on the FULL model, the root "
+                       "percolation is certified variable by variable (TLC checks constancy of each update function over its support given lower-ranked "
+                       "values) and the diagram and seeds projected onto the core are judged by TLC against the core network (minimal trap spaces and "
+                       "attractors by explicit enumeration). Models with a larger core are listed as not covered. "
                        "Non-trivial: distinct compositions with >= 2 attractors / valuations with >= 2 nodes.")
     # structured networks in which fixing an input creates new source variables
     f3 = bn.from_exprs
@@ -963,6 +977,55 @@ def c18(res: Result):
             tw.append(t)
     run_twin(res, tw, ["Inv_ISO", "Inv_ATTR"], ["Inv_WF", "Inv_FullExact", "Inv_CacheFresh", "Inv_SetsFresh"], "below",
              lambda t: len(t["b"][-1]["post"]["nodes"]) >= 2)
+    run_core_models(res, q, rng)
+
+
+def run_core_models(res: Result, q: bool, rng):
+    """(3) published models with a small percolated core: build() on the full model, judged by TLC on the core network"""
+    import glob
+    import models
+    repo = os.environ.get("VERIF_REPO") or "/repo"
+    files = sorted(glob.glob(os.path.join(repo, "models", "bbm-bnet-inputs-true", "*.bnet")))
+    if q:
+        files = rng.sample(files, 40)
+    tasks = [{"path": f, "max_core": 7 if q else 10, "max_local": 10 if q else 13, "timeout": 60 if q else 240} for f in files]
+    wd = os.path.join(sdcheck.WORK, res.pid, "coremodels")
+    shutil.rmtree(wd, ignore_errors=True)
+    os.makedirs(wd)
+    sf, pf = os.path.join(wd, "sd.ndjson"), os.path.join(wd, "pure.ndjson")
+    done, skipped = models.record_many(tasks, sf, pf)
+    res.cov["models_tried"] = len(files)
+    res.cov["models_validated"] = done[:60]
+    res.cov["models_validated_count"] = len(done)
+    res.cov["models_not_covered"] = [{"model": x["skipped"], "why": x["why"]} for x in skipped][:200]
+    if not done:
+        return
+    o1 = tlc.validate_traces(sf, "SDTrace", sdcheck.CONF_CLAUSES + ["Inv_WF", "Inv_PartialFaithful", "Inv_MinExact", "Inv_C01"], os.path.join(wd, "v_sd"))
+    o2 = tlc.validate_traces(pf, "PureTrace", ["Inv_PERC", "Inv_RAISED", "Inv_UNKNOWN"], os.path.join(wd, "v_pure"))
+    for o in (o1, o2):
+        res.cov["traces_validated_against_impl"] += o["traces"]
+        res.cov["states"] += o["states"]
+        res.cov["transitions"] += o["generated"]
+    res.cov["evaluations"] += len(done)
+    res.cov["distinct_nontrivial"] += sum(1 for d in done if d["core"] >= 1 or d["variables"] >= 10)
+    bad = {}
+    for (inv, tid, l, op) in o1["violations"] + o2["violations"]:
+        bad.setdefault(tid.split(":")[0].lstrip("m"), []).append((inv, tid, l, op))
+    for d in done:
+        if not d["fixed_consistent"]:
+            bad.setdefault(d["model"][:3], []).append(("FIXED", d["model"], 0, "a node space or seed disagrees with the root space on a fixed variable"))
+    for k, (m, vs) in enumerate(sorted(bad.items())):
+        if k >= 15:
+            break
+        vd = os.path.join(sdcheck.WORK, res.pid, "violations", f"model_{m}")
+        os.makedirs(vd, exist_ok=True)
+        json.dump({"property": res.pid, "engine": "core-models", "model": m, "failing": [list(v) for v in vs]},
+                  open(os.path.join(vd, "verdict.json"), "w"), indent=1)
+        for ln in open(sf):
+            t = json.loads(ln)
+            if t["model"].startswith(m):
+                json.dump(t, open(os.path.join(vd, "trace.json"), "w"))
+        res.violations.append(vd)
 
 
 CHECKS = {"C16": c16, "C17": c17, "C18": c18, "C19": c19, "C13": c13, "C06": c06, "C07": c07, "C09": c09, "C10": c10, "C11": c11, "C15": c15, "C01": c01, "C02": c02, "C03": c03, "C04": c04, "C05": c05, "C08": c08, "C12": c12, "C14": c14, "C20": c20}
